@@ -44,7 +44,7 @@ BOUNDS = {
     "types": TYPES, "axis_kinds": KINDS, "ensemble_dims": [0, 3], "ensemble_axis_length": [1, 4],
     "base_shapes": "2-D (5,4)/(4,3), 1-D (6,), PotentialArray/SMatrixArray 3-D (3,5,4)",
     "index_expressions": "int, slice, None, at most one list/ndarray per expression (never combined with an int), "
-                         "no Ellipsis; 'adv_mixed' cases combine one list with one int",
+                         "no Ellipsis; 'adv_mixed' cases (eager only) combine one list with one int",
     "concatenate_types": CONCAT_TYPES, "stack_types": STACK_TYPES,
     "extra_random": {"quick": 10, "thorough": 400},
 }
@@ -111,6 +111,15 @@ def make_axis(kind, n, variant=0):
         return A.OrdinalAxis(label="Iteration", values=tuple(range(v, n + v)))
     if kind == "realspace":
         return A.RealSpaceAxis(label="z", sampling=0.5 + v, units="Å", endpoint=False)
+    if kind == "scan32":  # field values as NumPy scalars, the way abTEM fills them from arrays
+        return A.ScanAxis(label="x", sampling=np.float32(0.1 * (v + 1)), offset=np.float32(0.25 * v), units="Å", endpoint=False)
+    if kind == "param32":
+        return A.ParameterAxis(label="defocus", values=tuple(np.linspace(-5, 5, n).astype(np.float32) + np.float32(v)),
+                               units="Å", tex_label="$\\Delta f$")
+    if kind == "prism":
+        return A.PrismPlaneWavesAxis()
+    if kind == "linear":
+        return A.LinearAxis(label="t", sampling=0.25 + v, offset=-1.0, units="s")
     raise KeyError(kind)
 
 
@@ -144,17 +153,18 @@ def make_object(typ, kinds, shape, r, lazy=False, chunk1=True, variant=0, cplx=F
         arr = da.from_array(a, chunks=tuple(1 if chunk1 else -1 for _ in shape) + (-1,) * len(base))
     md = {"energy": 100e3, "label": "intensity", "units": "arb. unit"} if metadata is None else dict(metadata)
     kw = dict(ensemble_axes_metadata=axes, metadata=md)
+    dv = 0.01 * variant
     if typ == "Images":
-        o = abtem.Images(arr, sampling=(0.2, 0.3), **kw)
+        o = abtem.Images(arr, sampling=(0.2 + dv, 0.3), **kw)
     elif typ == "DiffractionPatterns":
-        o = abtem.DiffractionPatterns(arr, sampling=(0.02, 0.03), fftshift=bool(variant % 2 == 0), **kw)
+        o = abtem.DiffractionPatterns(arr, sampling=(0.02 + dv, 0.03), fftshift=bool(variant % 2 == 0), **kw)
     elif typ == "PolarMeasurements":
-        o = abtem.PolarMeasurements(arr, radial_sampling=10.0, azimuthal_sampling=float(np.pi / 2), radial_offset=5.0,
-                                    azimuthal_offset=0.1, **kw)
+        o = abtem.PolarMeasurements(arr, radial_sampling=10.0 + variant, azimuthal_sampling=float(np.pi / 2),
+                                    radial_offset=5.0 * (variant % 3), azimuthal_offset=0.1 * (variant % 2), **kw)
     elif typ == "RealSpaceLineProfiles":
-        o = abtem.RealSpaceLineProfiles(arr, sampling=0.1, **kw)
+        o = abtem.RealSpaceLineProfiles(arr, sampling=0.1 + dv, **kw)
     elif typ == "ReciprocalSpaceLineProfiles":
-        o = abtem.ReciprocalSpaceLineProfiles(arr, sampling=0.05, **kw)
+        o = abtem.ReciprocalSpaceLineProfiles(arr, sampling=0.05 + dv, **kw)
     elif typ == "MeasurementsEnsemble":
         o = abtem.measurements.MeasurementsEnsemble(arr, **kw)
     elif typ == "IndexedDiffractionPatterns":
@@ -164,11 +174,12 @@ def make_object(typ, kinds, shape, r, lazy=False, chunk1=True, variant=0, cplx=F
     elif typ == "Waves":
         if metadata is None:
             kw["metadata"] = {"label": "waves", "foo": 1}
-        o = abtem.Waves(arr, energy=100e3, sampling=(0.2, 0.3), **kw)
+        o = abtem.Waves(arr, energy=[100e3, 60e3, 300e3][variant % 3], sampling=(0.2 + dv, 0.3),
+                        reciprocal_space=bool(variant % 4 == 3), **kw)
     elif typ == "PotentialArray":
         if metadata is None:
             kw["metadata"] = {}
-        o = PotentialArray(arr, slice_thickness=(1.0, 2.0, 1.5), sampling=(0.2, 0.3), **kw)
+        o = PotentialArray(arr, slice_thickness=(1.0, 2.0 + dv, 1.5), sampling=(0.2 + dv, 0.3), **kw)
     elif typ == "SMatrixArray":
         if metadata is None:
             kw["metadata"] = {}
@@ -343,11 +354,10 @@ def cases(tier, seed):
                    **_item_flags(items, d["kinds"], d["shape"]), s=s)
     for j in range(6 + extra // 4):
         nd = 2 + j % 2
-        d = dict(type=TYPES[j % len(TYPES)], kinds=[KINDS[(j + 2 * i) % len(KINDS)] for i in range(nd)], lazy=bool(j % 2),
+        # eager only: dask.array does not follow NumPy's placement rule for an int and a list separated by a slice
+        d = dict(type=TYPES[j % len(TYPES)], kinds=[KINDS[(j + 2 * i) % len(KINDS)] for i in range(nd)], lazy=False,
                  chunk1=True, shape=_shape_for(r, nd))
         items, bare = _gen_items(r, d["shape"], "adv_mixed")
-        if d["lazy"] and any(t[0] in "lab" for t in items):
-            items = [t for t in items if t[0] != "n"]
         s += 1
         yield dict(d, op="getitem", items=items, bare=False, keepdims=False, style="adv_mixed",
                    **_item_flags(items, d["kinds"], d["shape"]), s=s)
@@ -579,6 +589,9 @@ def _run_getitem(case):
     nt = any(hasattr(x, "values") for x in axes)
     # integer indices: the selected value must travel with the item (into .metadata)
     md = res.metadata
+    if sum(type(ax_).__name__ in ("TiltAxis", "AxisAlignedTiltAxis") for ax_, _ in sel_values) > 1:
+        # two tilt axes of this synthetic object write the same metadata key (base_tilt_x/y); nothing to demand
+        sel_values = [(ax_, v) for ax_, v in sel_values if type(ax_).__name__ not in ("TiltAxis", "AxisAlignedTiltAxis")]
     for ax_, val in sel_values:
         comps = list(val) if isinstance(val, tuple) else [val]
         present = any(_norm(v) == _norm(val) for v in md.values()) or all(
